@@ -187,6 +187,17 @@ func VH_C06_sync() {
 	op.bootstrapMainQueue(op.TaskQueues)
 	q := op.TaskQueues.GetMain()
 
+	// creating the monitor of one binding may fail once (its CRD is not installed
+	// yet): the EnableKubernetesBindings task fails and is retried
+	failAdd := zz.Len("monitor_add_fails_once_at", 0, nb)
+	addFailed := false
+	e.kmgr.AddErr = func(id string) error {
+		if failAdd > 0 && !addFailed && id == "mon-"+strconv.Itoa(failAdd-1) {
+			addFailed = true
+			return errors.New("no kind CronTab is registered")
+		}
+		return nil
+	}
 	failFirst := zz.Bool("first_run_fails")
 	runs := 0
 	var delivered [][]string // per execution: "binding/type/group"
